@@ -228,6 +228,27 @@ func genC17(g *Gen, tier string) *Program {
 				scopes = append(scopes, nextS)
 				nextS++
 			case 1:
+				if !conflict && t == 0 && g.Bool(3) {
+					// two series of one histogram family (same name, same tag keys,
+					// different tag values) requested with different bucket sets
+					k := pick(g, "zone", "host_id")
+					if !strings.Contains(keysOf[0]+"_", "_"+k+"_") {
+						sa, sb := nextS, nextS+1
+						nextS += 2
+						nm := "h_twosets_k" + strings.TrimPrefix(keysOf[0]+"_"+k, "_")
+						b1 := &BucketSpec{Bits: []uint64{f64bits(1), f64bits(2), f64bits(3)}}
+						b2 := &BucketSpec{Bits: []uint64{f64bits(10), f64bits(20), f64bits(30)}}
+						ops = append(ops,
+							Op{K: "tag", S: 0, D: sa, Tags: map[string]string{k: "a"}},
+							Op{K: "tag", S: 0, D: sb, Tags: map[string]string{k: "b"}},
+							Op{K: "hist", S: sa, M: nextM, Name: nm, B: b1},
+							Op{K: "hist", S: sb, M: nextM + 1, Name: nm, B: b2},
+							Op{K: "recv", M: nextM, F: f64bits(2)},
+							Op{K: "recv", M: nextM + 1, F: f64bits(8)})
+						nextM += 2
+						continue
+					}
+				}
 				kind := []string{"counter", "gauge", "timer", "hist"}[g.Intn(4)]
 				name := promNames[g.Intn(len(promNames))]
 				if !conflict {
@@ -294,7 +315,14 @@ func genC17(g *Gen, tier string) *Program {
 					if g.Bool(35) && !emptySpec {
 						op.N = -1 // the caller builds every bucket set in one scratch slice
 					}
-					if !conflict {
+					if !conflict && !emptySpec && g.Bool(8) {
+						// ... except here: the name carries no trace of the bucket set, so
+						// that series of one family (same name and tag keys) can be
+						// requested with different sets
+						if i := strings.LastIndex(op.Name, "_k"); i >= 0 {
+							op.Name = "respec" + op.Name[i:]
+						}
+					} else if !conflict {
 						// a histogram name always goes with one bucket set
 						if spec.Dur {
 							op.Name += fmt.Sprintf("_d%d", specHash(spec))
@@ -433,18 +461,7 @@ func checkC17(env *Env) []Violation {
 		return out
 	}
 	ci := newCloseInfo(env, ops)
-	type want struct {
-		kind    string
-		name    string
-		tags    map[string]string
-		sum     float64
-		gauge   float64
-		hasG    bool
-		n       uint64
-		samples []float64
-		spec    *BucketSpec
-		skip    bool
-	}
+	type want = promWant
 	ws := map[string]*want{}
 	for _, r := range ops {
 		mv, _ := r.Obj.(*metricVar)
@@ -456,6 +473,10 @@ func checkC17(env *Env) []Violation {
 		if w == nil {
 			w = &want{kind: mv.kind, name: mv.FullName, tags: mv.Tags, spec: mv.spec}
 			ws[k] = w
+		} else if mv.kind == "hist" && w.spec != nil && mv.spec != nil && !sameBuckets(w.spec, mv.spec) {
+			// one identity requested with two bucket sets: the first request to get
+			// there decides (C03), and which one that was is not in the history
+			w.skip = true
 		}
 		ob := ci.obligation(mv, r)
 		switch r.Op.K {
@@ -573,6 +594,10 @@ func checkC17(env *Env) []Violation {
 						have = append(have, ub)
 					}
 					sort.Float64s(have)
+					if other := otherSpecOfFamily(ws, w); other != "" {
+						out = append(out, vf("histogram-second-spec", "histogram %q %v was created with the bounds %v, but an earlier series of the same family (same name and tag keys, tags %s) was created with another set and Gather shows this series with that one: %v", w.name, w.tags, want, other, have))
+						continue
+					}
 					out = append(out, vf("histogram-bounds", "histogram %q %v: Gather shows the bounds %v, it was created with %v", w.name, w.tags, have, want))
 					continue
 				}
@@ -597,6 +622,66 @@ func checkC17(env *Env) []Violation {
 	return out
 }
 
+// promWant is what the history says about one metric identity.
+type promWant struct {
+	kind    string
+	name    string
+	tags    map[string]string
+	sum     float64
+	gauge   float64
+	hasG    bool
+	n       uint64
+	samples []float64
+	spec    *BucketSpec
+	skip    bool
+}
+
+func sameBuckets(a, b *BucketSpec) bool {
+	if a.Dur != b.Dur || len(a.Durs) != len(b.Durs) || len(a.Bits) != len(b.Bits) {
+		return false
+	}
+	x, y := append([]int64(nil), a.Durs...), append([]int64(nil), b.Durs...)
+	sort.Slice(x, func(i, j int) bool { return x[i] < x[j] })
+	sort.Slice(y, func(i, j int) bool { return y[i] < y[j] })
+	for i := range x {
+		if x[i] != y[i] {
+			return false
+		}
+	}
+	u, v := append([]uint64(nil), a.Bits...), append([]uint64(nil), b.Bits...)
+	sort.Slice(u, func(i, j int) bool { return f64from(u[i]) < f64from(u[j]) })
+	sort.Slice(v, func(i, j int) bool { return f64from(v[i]) < f64from(v[j]) })
+	for i := range u {
+		if f64from(u[i]) != f64from(v[i]) {
+			return false
+		}
+	}
+	return true
+}
+
+// otherSpecOfFamily looks for a histogram of w's family (same name, same tag
+// keys, other tag values) that was created with another bucket set; it returns
+// that series' tags, or "".
+func otherSpecOfFamily(ws map[string]*promWant, w *promWant) string {
+	keys := func(m map[string]string) string {
+		var ks []string
+		for k := range m {
+			ks = append(ks, k)
+		}
+		sort.Strings(ks)
+		return strings.Join(ks, ",")
+	}
+	for _, o := range ws {
+		if o == w || o.kind != "hist" || o.name != w.name || o.spec == nil || w.spec == nil || keys(o.tags) != keys(w.tags) {
+			continue
+		}
+		if !sameBuckets(o.spec, w.spec) {
+			return fmt.Sprint(o.tags)
+		}
+	}
+	return ""
+}
+
 // promNameReuse reports whether one fully-qualified name is requested with more
 // than one (kind, label-name set, bucket set): Prometheus rightly rejects those.
 func promNameReuse(ops []*OpRec) bool {
@@ -612,9 +697,8 @@ func promNameReuse(ops []*OpRec) bool {
 		}
 		sort.Strings(keys)
 		sig := mv.kind + "|" + strings.Join(keys, ",")
-		if mv.spec != nil {
-			sig += fmt.Sprintf("|%v|%v|%v", mv.spec.Dur, mv.spec.Durs, mv.spec.Bits)
-		}
+		// (two bucket sets under one name are not "a name reused for another kind
+		// of metric": value agreement is claimed for them - see histogram-second-spec)
 		if old, ok := sigs[mv.FullName]; ok && old != sig {
 			return true
 		}
